@@ -1,6 +1,7 @@
 package main
 
 import (
+	"strconv"
 	"os"
 	"go/token"
 	"strings"
@@ -369,6 +370,73 @@ func extensionErrors(r *R, ue *ssa.Function, app ssa.Instruction) {
 	}
 }
 
+// parseRelLit splits a literal `±(L op R)` at its top-level comparison operator.
+func parseRelLit(l string) (pos bool, left, op, right string, ok bool) {
+	if len(l) < 4 || (l[0] != '+' && l[0] != '-') || l[1] != '(' || l[len(l)-1] != ')' {
+		return
+	}
+	body := l[2 : len(l)-1]
+	depth := 0
+	for i := 0; i < len(body); i++ {
+		switch body[i] {
+		case '(', '[', '{':
+			depth++
+		case ')', ']', '}':
+			depth--
+		case ' ':
+			if depth != 0 {
+				continue
+			}
+			for _, o := range []string{" == ", " != ", " <= ", " >= ", " < ", " > "} {
+				if strings.HasPrefix(body[i:], o) {
+					return l[0] == '+', body[:i], strings.TrimSpace(o), body[i+len(o):], true
+				}
+			}
+		}
+	}
+	return
+}
+
+// intRel: some literal states `X op k` (k an integer) for an X accepted by okX, in any spelling: operands either way
+// round, stated positively or as the negated complement, `< k` or `<= k-1`.
+func intRel(lits []string, okX func(string) bool, op string, k int) bool {
+	flip := map[string]string{"==": "==", "!=": "!=", "<": ">", ">": "<", "<=": ">=", ">=": "<="}
+	neg := map[string]string{"==": "!=", "!=": "==", "<": ">=", ">": "<=", "<=": ">", ">=": "<"}
+	canon := func(op string, k int) (string, int) {
+		switch op {
+		case "<=":
+			return "<", k + 1
+		case ">=":
+			return ">", k - 1
+		}
+		return op, k
+	}
+	wop, wk := canon(op, k)
+	for _, l := range lits {
+		pos, a, o, b, ok := parseRelLit(l)
+		if !ok {
+			continue
+		}
+		kb, errB := strconv.Atoi(b)
+		if errB != nil {
+			if ka, errA := strconv.Atoi(a); errA == nil {
+				a, b, kb, o = b, a, ka, flip[o]
+			} else {
+				continue
+			}
+		}
+		_ = b
+		if !pos {
+			o = neg[o]
+		}
+		co, ck := canon(o, kb)
+		if co == wop && ck == wk && okX(a) {
+			return true
+		}
+	}
+	return false
+}
+
 // litLike: some literal has the given prefix and suffix.
 func litLike(lits []string, pre, suf string) bool {
 	for _, l := range lits {
@@ -382,6 +450,26 @@ func litLike(lits []string, pre, suf string) bool {
 // relHolds: the literal list establishes `a op b`, in any of the spellings a path alternative may carry it
 // (operands either way round, stated positively or as the negation of the complementary test).
 func relHolds(lits []string, a, op, b string) bool {
+	if relHolds1(lits, a, op, b) {
+		return true
+	}
+	// over the integers `a < k` is `a <= k-1` and `a > k` is `a >= k+1`
+	if k, err := strconv.Atoi(b); err == nil {
+		switch op {
+		case "<":
+			return relHolds1(lits, a, "<=", strconv.Itoa(k-1))
+		case "<=":
+			return relHolds1(lits, a, "<", strconv.Itoa(k+1))
+		case ">":
+			return relHolds1(lits, a, ">=", strconv.Itoa(k+1))
+		case ">=":
+			return relHolds1(lits, a, ">", strconv.Itoa(k-1))
+		}
+	}
+	return false
+}
+
+func relHolds1(lits []string, a, op, b string) bool {
 	flip := map[string]string{"==": "==", "!=": "!=", "<": ">", ">": "<", "<=": ">=", ">=": "<="}
 	neg := map[string]string{"==": "!=", "!=": "==", "<": ">=", ">": "<=", "<=": ">", ">=": "<"}
 	for _, l := range lits {
@@ -843,6 +931,8 @@ func c02r7(r *R) {
 	al := ja4m(r, "unmarshalFirstALPN")
 	o2 := r.Ob("C02.R7", "alpn:"+funcName(al)).At(al.Pos())
 	first := "assert[*tls.ALPNExtension](" + extI + ")#0.AlpnProtocols[0]"
+	isFirstChar := func(x string) bool { return strings.HasSuffix(x, "[0]") && strings.Contains(x, "AlpnProtocols[0]") }
+	isLen := func(x string) bool { return strings.HasPrefix(x, "builtin.len(") && strings.Contains(x, "AlpnProtocols[0]") }
 	n = 0
 	saw00, sawVal := false, false
 	whole := ""
@@ -863,7 +953,7 @@ func c02r7(r *R) {
 				o2.Check(hasGuardContaining(gs, "+", `("" == phi(""|`+first), "\"00\" is stored under %v, want `no ALPN value`", gs)
 			} else if v == `"99"` {
 				sawVal = true
-				o2.Check(litLike(gs, "+(127 < ", "[0])"), "\"99\" is stored under %v, want only when the first character is not ASCII", gs)
+				o2.Check(intRel(gs, isFirstChar, ">", 127), "\"99\" is stored under %v, want only when the first character is not ASCII", gs)
 			} else if v == `""` && (hasGuardContaining(c.guardStrs(st.Block()), "+", `("" != phi(""|`+first) || hasGuardContaining(gs, "+", `("" != phi(""|`+first)) {
 				// the initial empty value cannot reach a store that is guarded by `alpn != ""`
 			} else {
@@ -872,11 +962,11 @@ func c02r7(r *R) {
 				// which form under which length: first+last only for more than two characters, the protocol itself otherwise;
 				// both only for an ASCII first character
 				shortened := strings.Contains(v, ") - 1)])")
-				o2.Check(litLike(gs, "+(", "[0] <= 127)"), "an ALPN value is stored without the first character having been found ASCII (conditions %v)", gs)
+				o2.Check(intRel(gs, isFirstChar, "<=", 127), "an ALPN value is stored without the first character having been found ASCII (conditions %v)", gs)
 				if shortened {
-					o2.Check(litLike(gs, "+(2 < builtin.len(", "))"), "first+last character is stored under %v, want for protocols longer than two characters", gs)
+					o2.Check(intRel(gs, isLen, ">", 2), "first+last character is stored under %v, want for protocols longer than two characters", gs)
 				} else {
-					o2.Check(litLike(gs, "+(builtin.len(", ") <= 2)"), "the whole protocol is stored under %v, want for protocols of at most two characters", gs)
+					o2.Check(intRel(gs, isLen, "<=", 2), "the whole protocol is stored under %v, want for protocols of at most two characters", gs)
 				}
 			}
 		}
@@ -908,10 +998,13 @@ func c02r7(r *R) {
 	eachInstr(al, func(i ssa.Instruction) {
 		if iff, ok := i.(*ssa.If); ok {
 			e := c.Expr(iff.Cond)
-			if strings.HasPrefix(e, "(2 < builtin.len(") {
+			one := []string{"+" + e}
+			isL := func(x string) bool { return strings.HasPrefix(x, "builtin.len(") }
+			isC := func(x string) bool { return strings.HasSuffix(x, "[0]") }
+			if intRel(one, isL, ">", 2) || intRel(one, isL, "<=", 2) {
 				conds["len>2"] = true
 			}
-			if strings.HasPrefix(e, "(127 < ") {
+			if intRel(one, isC, ">", 127) || intRel(one, isC, "<=", 127) {
 				conds["nonascii"] = true
 			}
 		}
